@@ -1,15 +1,15 @@
 /-
 Model of `Render` of /repo/lang/render/render.go (C12, the Wuffs formatter) over the
-token model of `Model/Token.lean`, function by function, for the REPAIRED code
+token model of `Model/FmtToken.lean`, function by function, for the REPAIRED code
 (fixes/C12-render-comment-only-file.patch: a source of nothing but comments is no
 longer rendered as the empty file).  `appendNum` lives in `Model/Render.lean`.
 Core Lean only.
 -/
-import WuffsVerif.Model.Token
+import WuffsVerif.Model.FmtToken
 import WuffsVerif.Model.Render
 
 namespace WuffsVerif.Render
-open WuffsVerif.Token WuffsVerif.Gen.C12
+open WuffsVerif.FmtToken WuffsVerif.Gen.C12
 
 def maxIndent : Nat := 0xFFFF
 
@@ -20,14 +20,14 @@ def tokFlags (t : Tok) : Nat :=
     | c :: _ => if alpha c then 16 else 32
     | [] => 0
 
-def _root_.WuffsVerif.Token.Tok.isClose (t : Tok) : Bool := hasFlag (tokFlags t) 1
-def _root_.WuffsVerif.Token.Tok.isTightLeft (t : Tok) : Bool := hasFlag (tokFlags t) 2
-def _root_.WuffsVerif.Token.Tok.isTightRight (t : Tok) : Bool := hasFlag (tokFlags t) 4
-def _root_.WuffsVerif.Token.Tok.isUnaryAndBinary (t : Tok) : Bool := hasFlag (tokFlags t) 8
-def _root_.WuffsVerif.Token.Tok.isIdent (t : Tok) : Bool := hasFlag (tokFlags t) 16
-def _root_.WuffsVerif.Token.Tok.isLiteral (t : Tok) : Bool := hasFlag (tokFlags t) 32
-def _root_.WuffsVerif.Token.Tok.isDQStr (t : Tok) : Bool := t.id ≥ nBuiltInIDs && t.text.head? == some 34
-def _root_.WuffsVerif.Token.Tok.isSQStr (t : Tok) : Bool := t.id ≥ nBuiltInIDs && t.text.head? == some 39
+def _root_.WuffsVerif.FmtToken.Tok.isClose (t : Tok) : Bool := hasFlag (tokFlags t) 1
+def _root_.WuffsVerif.FmtToken.Tok.isTightLeft (t : Tok) : Bool := hasFlag (tokFlags t) 2
+def _root_.WuffsVerif.FmtToken.Tok.isTightRight (t : Tok) : Bool := hasFlag (tokFlags t) 4
+def _root_.WuffsVerif.FmtToken.Tok.isUnaryAndBinary (t : Tok) : Bool := hasFlag (tokFlags t) 8
+def _root_.WuffsVerif.FmtToken.Tok.isIdent (t : Tok) : Bool := hasFlag (tokFlags t) 16
+def _root_.WuffsVerif.FmtToken.Tok.isLiteral (t : Tok) : Bool := hasFlag (tokFlags t) 32
+def _root_.WuffsVerif.FmtToken.Tok.isDQStr (t : Tok) : Bool := t.id ≥ nBuiltInIDs && t.text.head? == some 34
+def _root_.WuffsVerif.FmtToken.Tok.isSQStr (t : Tok) : Bool := t.id ≥ nBuiltInIDs && t.text.head? == some 39
 
 /-- `isCloseIdentLiteral` -/
 def isCloseIdentLiteral (t : Tok) : Bool := t.isClose || t.isIdent || t.isLiteral
